@@ -123,7 +123,7 @@ def run(ctx):
                         'emits about a deprecated hint (typing.ByteString) are not beartype\'s',
                         'PARTIAL: the theorem about validation covers the root-level decision procedure; malformed children of subscripted '
                         'hints, the DOOR wrappers and the error path are decided by the generator only',
-                        'RecursionError for hints nested hundreds of levels deep is probed at depth 40 only']
+                        'hints nested 40, 150 and 400 levels deep are probed with six / one constructors only']
     proof_err = None
     try:
         regenerate(ctx)
@@ -160,6 +160,8 @@ def run(ctx):
     for c in ('list', 'List', 'Optional', 'tuple_var', 'Annotated_meta', 'type'):
         cases.append({'kind': 'junk', 'hint': ['deep', c, 40, ['leaf', 'int']], 'obj': '1', 'conf': 'default'})
         cases.append({'kind': 'junk', 'hint': ['deep', c, 40, ['leaf', 'j_int']], 'obj': '1', 'conf': 'default'})
+    for d in (150, 400):          # beyond the parser's nesting limit / beyond the 256 entries of the hint queue
+        cases.append({'kind': 'junk', 'hint': ['deep', 'list', d, ['leaf', 'int']], 'obj': '[1]', 'conf': 'default'})
     rows, index, seen_rows = [], [], {}
     for lo in range(0, len(cases), 400):
         part = cases[lo:lo + 400]
